@@ -69,6 +69,7 @@ type Config struct {
 	Concrete     bool              // selftest mode: zzverif inputs come from a witness
 	Witness      *Witness          // for Concrete
 	MapOrder     string            // base order of map iteration: sorted | reverse
+	NoSkipGuard  bool              // disable the skip-guard schedule reduction
 }
 
 type InputVal struct {
@@ -136,6 +137,11 @@ type Result struct {
 	Langs       map[string][]LangPath     `json:"langs,omitempty"`
 }
 
+type seenShard struct {
+	mu sync.Mutex
+	m  map[[32]byte]bool
+}
+
 type Explorer struct {
 	Prog *ssa.Program
 	Pkg  *ssa.Package
@@ -145,7 +151,7 @@ type Explorer struct {
 	work    [][]Decision
 	active  int
 	res     *Result
-	seen    map[[32]byte]bool
+	seen    [64]seenShard
 	vioKeys map[string]*Violation
 	stubs   map[string]bool
 	start   time.Time
@@ -200,6 +206,7 @@ type worker struct {
 	resetPkgs []*ssa.Package
 	pathOrd  map[uintptr]*mapOrd
 	warmOrd  map[uintptr]*mapOrd
+	assertsConc, assertsChk int
 }
 
 func (ex *Explorer) Run() *Result {
@@ -230,7 +237,9 @@ func (ex *Explorer) Run() *Result {
 	}
 	ex.res = &Result{Harness: cfg.Harness, Ends: map[string]int{}, Reach: map[string]*ReachRec{}, Observed: map[string]map[string]int{},
 		Inconcl: map[string]int{}, InconclEx: map[string]string{}, Funcs: map[string]int{}}
-	ex.seen = map[[32]byte]bool{}
+	for i := range ex.seen {
+		ex.seen[i].m = map[[32]byte]bool{}
+	}
 	ex.vioKeys = map[string]*Violation{}
 	ex.stubs = map[string]bool{}
 	ex.work = [][]Decision{{}}
@@ -267,6 +276,8 @@ func (ex *Explorer) Run() *Result {
 		for f, n := range w.funcs {
 			r.Funcs[f.String()] += n
 		}
+		r.AssertsConc += w.assertsConc
+		r.AssertsChk += w.assertsChk
 	}
 	r.WallSec = time.Since(ex.start).Seconds()
 	incon := 0
@@ -662,12 +673,13 @@ func (st *pstate) choose(n int, kind byte, fr *frame, prune bool) int {
 	} else {
 		if prune && st.ex.Cfg.Prune {
 			h := stateHash(fr, st)
-			st.ex.mu.Lock()
-			seen := st.ex.seen[h]
+			sh := &st.ex.seen[h[0]&63]
+			sh.mu.Lock()
+			seen := sh.m[h]
 			if !seen {
-				st.ex.seen[h] = true
+				sh.m[h] = true
 			}
-			st.ex.mu.Unlock()
+			sh.mu.Unlock()
 			if seen {
 				panic(engineAbort{"pruned", ""})
 			}
